@@ -111,17 +111,20 @@ class _Task:
 class ControlledPool:
     """Stands in for joblib.Parallel(n_jobs=..., require="sharedmem")."""
 
-    def __init__(self, run, n_jobs=1, **kw):
+    def __init__(self, run, n_jobs=1, return_as="list", **kw):
         self.run = run
         self.n_jobs = n_jobs if n_jobs and n_jobs > 0 else 1
+        self.return_as = return_as  # joblib: "list" | "generator" (submission order) | "generator_unordered"
 
     def __call__(self, iterable):
         run = self.run
         idx = run.exe.invocations
         run.exe.invocations += 1
         if self.n_jobs == 1 or idx != run.focus:
-            return [fn(*a, **k) for fn, a, k in iterable]
-        return run.schedule(iterable, self.n_jobs)
+            out = [fn(*a, **k) for fn, a, k in iterable]
+        else:
+            out = run.schedule(iterable, self.n_jobs, unordered=self.return_as == "generator_unordered")
+        return out if self.return_as == "list" else iter(out)
 
 
 def delayed(fn):
@@ -160,11 +163,12 @@ class Run:
             raise RuntimeError("horizon exceeded (livelock?)")
         return c
 
-    def schedule(self, iterable, n_jobs):
+    def schedule(self, iterable, n_jobs, unordered=False):
         exe = self.exe
         exe.focus_seen = True
         it = iter(iterable)
         active, results, next_id = [], {}, 0
+        completion = []
         exhausted = False
         first_exc = None
 
@@ -202,6 +206,7 @@ class Run:
                 t.thread.join()
                 active.remove(t)
                 results[t.tid] = t.result
+                completion.append(t.tid)
                 if t.exc is not None and first_exc is None:
                     first_exc = t.exc
                     exhausted = True  # joblib stops dispatching after a failure
@@ -212,6 +217,8 @@ class Run:
         exe.focus_tasks = next_id
         if first_exc is not None:
             raise first_exc
+        if unordered:  # results are handed over in the order the tasks finished
+            return [results[i] for i in completion]
         return [results[i] for i in range(next_id)]
 
 
